@@ -58,8 +58,8 @@ template <class G> struct C06 {
     judgeJ("ljac_is_rjac_of_minus_t", mJl, vf::toLM((-t).rjac()), L, B::B4, a.key, dt);
     judgeP("rjacinv_times_rjac_is_I", mJri, mJr, I, L, B::B4, a.key, dt);
     judgeP("ljacinv_times_ljac_is_I", mJli, mJl, I, L, B::B4, a.key, dt);
-    judgeJ("rjacinv_is_inverse_of_series", mJri, ref::Mat(Jr.fullPivLu().inverse()), L, B::B4, a.key, dt);
-    judgeJ("ljacinv_is_inverse_of_series", mJli, ref::Mat(Jl.fullPivLu().inverse()), L, B::B4, a.key, dt);
+    judgeJ("rjacinv_is_inverse_of_series", mJri, ref::inverse_equilibrated(Jr), L, B::B4, a.key, dt);
+    judgeJ("ljacinv_is_inverse_of_series", mJli, ref::inverse_equilibrated(Jl), L, B::B4, a.key, dt);
     // Adj(exp t) = expm(ad_t) = ljac * rjacinv
     ref::Mat Ead = ref::expm(g.ad(tl));
     ref::Real La = std::max(L, g.lin_scale_M(g.exp(tl)));
@@ -67,7 +67,7 @@ template <class G> struct C06 {
     judgeP("ljac_rjacinv_is_expm_ad_t", mJl, mJri, Ead, La, B::B4, a.key, dt);
     // per-decade residual profile of rjacinv (so that a collapse just above the switch-over shows as a spike)
     {
-      ref::Real d = ref::diff_jac(mJri, ref::Mat(Jr.fullPivLu().inverse()), mk, mk, L);
+      ref::Real d = ref::diff_jac(mJri, ref::inverse_equilibrated(Jr), mk, mk, L);
       std::string k = "profile:rjacinv_resid_over_bar@" + decade(a.theta);
       double ratio = (double)(d / B::B4);
       std::map<std::string, double>::iterator it = R.max_ratio.find(k);
